@@ -592,107 +592,127 @@ def first_elem(f, node):
 
 
 def prepare_signature(g, thr, cls):
+    """Effects of one iteration of X::prepare, per CFG path (any way of writing the loop body):
+       for every right block R whose image L = mapsTo(R) exists: one new XPart(.., H[R], H[L], ..) appended to parts,
+       mapPartsFromRight[R] = mapPartsFromLeft[L] = position of that part, LeftRightBlocks gets (L, R);
+       nothing when the image does not exist; no other condition decides.
+    Returns (signature, problems); raises AnalysisBroken when the code cannot be read that way."""
+    from pv import paths as P_
     ctx = thr.ctx(g)
-    at = thr.facts(g)
     problems = []
     loops = [j for j, n in g.walk(g.body) if n["k"] == "for"]
     if len(loops) != 1:
-        return None, ["expected one loop over the right blocks"]
-    shp = loop_shape(g, ctx, loops[0])
+        raise AnalysisBroken("%s: expected one loop over the right blocks" % g.qn)
+    L0 = loops[0]
+    shp = loop_shape(g, ctx, L0)
     S = ("field", "Pomerol::FieldOperator::S", THIS)
-    if not (shp["kind"] == "index" and deconv(shp["start"]) == ("lit", 0) and shp["rel"] == "<" and deconv(shp["bound"]) == ("mcall", SC + "NumberOfBlocks", S) and not shp["exits"]):
+    if shp["kind"] != "index":
+        raise AnalysisBroken("%s: the block loop is not an index loop" % g.qn)
+    if not (deconv(shp["start"]) == ("lit", 0) and shp["rel"] == "<" and deconv(shp["bound"]) == ("mcall", SC + "NumberOfBlocks", S) and not shp["exits"]):
         problems.append("the loop does not visit every right block in [0, NumberOfBlocks)")
     R = shp["var"]
-    roles = {R[1]: "R"}
-    for d, v in ctx.decls.items():
-        if v.get("init") is None:
-            continue
-        ik = ctx.key(v["init"], inline=False)
-        if ik[0] == "mcall" and ik[1] == "Pomerol::FieldOperator::mapsTo" and len(ik) == 4 and ik[3][:2] == R[:2]:
-            roles[d] = "L"
-        elif deconv(ik) == ("mcall", "std::vector::size", ("field", "Pomerol::FieldOperator::parts", THIS)):
-            roles[d] = "Size"
-        elif ik[0] == "new":
-            roles[d] = "P"
-    if sorted(roles.values()) != ["L", "P", "R", "Size"]:
-        return None, ["locals Right/Left/Size/Part not recognised (%s)" % sorted(roles.values())]
-
-    def ab(k):
-        def f(x):
-            if x[0] == "var" and x[1] in roles:
-                return ("role", roles[x[1]])
-            return None
-        return deconv(key_subst(k, f))
-    Lr, Rr, Sz, Pr = ("role", "L"), ("role", "R"), ("role", "Size"), ("role", "P")
-    items = []
+    PARTS = ("field", "Pomerol::FieldOperator::parts", THIS)
     H = ("field", "Pomerol::FieldOperator::H", THIS)
-    want_guard = ("true", ("mcall", "Pomerol::BlockNumber::isCorrect", None))
-    for j, n in g.walk(shp["body"]):
-        k = None
-        if n["k"] == "decl":
-            for v in n["vars"]:
-                if roles.get(v["d"]) == "P":
-                    nk = ab(ctx.key(v["init"], inline=False))
-                    # new XPart(IndexInfo, S, getPart(H,R), getPart(H,L), idx...)
-                    c = nk[2]
-                    if not (c[0] == "ctor" and c[1] == "Pomerol::%sOperatorPart" % cls):
-                        problems.append("part type is %s, expected %sOperatorPart" % (c[1], cls))
-                    elif not (len(c) >= 6 and c[4] == ("mcall", "Pomerol::Hamiltonian::getPart", H, Rr) and c[5] == ("mcall", "Pomerol::Hamiltonian::getPart", H, Lr)):
-                        problems.append("part is not built with HFrom = H.getPart(Right), HTo = H.getPart(Left)")
-                    items.append(("new", c[2:6] if len(c) >= 6 else c))
-                    k = "decl"
-        elif n["k"] == "call" and n["ck"] in ("method", "op"):
-            kk = ab(ctx.key(j, inline=False))
-            if kk[0] == "mcall" and kk[1] == "std::vector::push_back" and kk[2] == ("field", "Pomerol::FieldOperator::parts", THIS):
-                items.append(("push", kk[3]))
-                if kk[3] != Pr:
-                    problems.append("parts.push_back does not store the new part")
-            elif kk[0] == "op" and kk[1] == "=" and kk[2][0] == "op" and kk[2][1] == "[]" and kk[2][2][0] == "field" and kk[2][2][1].startswith("Pomerol::FieldOperator::mapPartsFrom"):
-                items.append(("map", kk[2][2][1], kk[2][3], kk[3]))
-            elif kk[0] == "mcall" and kk[1].endswith("::insert") and kk[2] == ("field", "Pomerol::FieldOperator::LeftRightBlocks", THIS):
-                items.append(("bimap",) + tuple(kk[3][2:]))
-        elif n["k"] == "bin" and n["op"] == "=":
-            kk = ab(ctx.key(j, inline=False))
-            if kk[2][0] == "op" and kk[2][1] == "[]" and kk[2][2][0] == "field" and kk[2][2][1].startswith("Pomerol::FieldOperator::mapPartsFrom"):
-                items.append(("map", kk[2][2][1], kk[2][3], kk[3]))
-        elif n["k"] == "un" and n["op"] == "++":
-            kk = ab(ctx.key(n["sub"], inline=False))
-            if kk == Sz:
-                items.append(("size++",))
-        if k is None and items and items[-1][0] in ("push", "map", "bimap", "size++", "new"):
-            pass
-    # every effect is guarded by LeftIndex.isCorrect()
-    for j, n in g.walk(shp["body"]):
-        if n["k"] == "call" and n["ck"] == "method" and strip_targs(n.get("cname") or "") == "std::vector::push_back":
-            fa = at.get(g.cfg.pos1(j), frozenset())
-            if not any(x[0] == "true" and x[1][0] == "mcall" and x[1][1] == "Pomerol::BlockNumber::isCorrect" for x in fa):
+    SIZE = ("mcall", "std::vector::size", PARTS)
+    Lkey = ("mcall", "Pomerol::FieldOperator::mapsTo", THIS, R)
+
+    def inl(k):
+        # inline single-assignment locals (LeftIndex, Part, PartPosition ...) but keep the loop counter
+        def f_(x):
+            if x[0] == "var" and x[:2] != R[:2] and x[1] in ctx.decls and ctx.decls[x[1]].get("init") is not None and ctx.single_assignment(x[1]) and x[1] not in counters:
+                return inl(deconv(ctx.key(ctx.decls[x[1]]["init"], inline=False)))
+            return None
+        return deconv(key_subst(deconv(k), f_))
+    # a running counter declared before the loop (size_t Size = parts.size(); ... Size++)
+    counters = {}
+    for d, v in ctx.decls.items():
+        if v.get("init") is not None and not any(v.get("declnode") == x for x, _ in g.walk(g.nodes[L0]["body"])):
+            ik = deconv(ctx.key(v["init"], inline=False))
+            if ik == SIZE and ctx.mut.get(d):
+                counters[d] = v["n"]
+    hdr, plist = P_.loop_body_paths(g, L0)
+    if not plist:
+        raise AnalysisBroken("%s: no path through the block loop" % g.qn)
+    isc = lambda pol: (pol, ("mcall", "Pomerol::BlockNumber::isCorrect", Lkey))
+    n_with = n_without = 0
+    sig = None
+    for path in plist:
+        pf = {(x[0], inl(x[1])) if x[0] in ("true", "false") else x for x in P_.path_facts(g, ctx, path)}
+        if not P_.feasible(pf):
+            continue
+        ids = P_.nodes_on_path(g, path[1:])
+        news, pushes, maps, bim, incs, others = [], [], [], [], [], []
+        for pos_, j in enumerate(ids):
+            n = g.nodes[j]
+            if n["k"] == "new":
+                news.append((pos_, inl(ctx.key(j, inline=False))))
+            elif n["k"] == "call" and n["ck"] == "method" and strip_targs(n.get("cname") or "") == "std::vector::push_back" and ctx.key(n["obj"]) == PARTS:
+                pushes.append((pos_, inl(ctx.key(n["args"][0], inline=False))))
+            elif n["k"] == "call" and n["ck"] == "method" and strip_targs(n.get("cname") or "").endswith("::insert") and ctx.key(n["obj"]) == ("field", "Pomerol::FieldOperator::LeftRightBlocks", THIS):
+                bim.append((pos_, inl(ctx.key(n["args"][0], inline=False))))
+            elif (n["k"] == "bin" and n["op"] == "=") or (n["k"] == "call" and n.get("ck") == "op" and n.get("op") == "=" and len(n["args"]) == 2):
+                l_, r_ = (n["l"], n["r"]) if n["k"] == "bin" else n["args"]
+                lk = deconv(ctx.key(l_, inline=False))
+                if lk[0] == "op" and lk[1] == "[]" and lk[2][0] == "field" and lk[2][1].startswith("Pomerol::FieldOperator::mapPartsFrom"):
+                    maps.append((pos_, lk[2][1].split("::")[-1], inl(lk[3]), ctx.key(r_, inline=False)))
+            elif n["k"] == "un" and n["op"] in ("++",) and g.nodes[n["sub"]]["k"] == "ref" and g.nodes[n["sub"]]["d"] in counters:
+                incs.append((pos_, g.nodes[n["sub"]]["d"]))
+        effects = bool(news or pushes or maps or bim)
+        if isc("true") in pf:
+            n_with += 1
+            if not effects:
+                problems.append("part creation is filtered by a condition other than LeftIndex.isCorrect() (%s): blocks with an image get no part" % (
+                    "; ".join(sorted(str(fact_str(x))[:60] for x in pf if x not in (isc("true"),) and x[0] in ("true", "false") and not (x[0] == "true" and False)))[:160] or "path without effects"))
+                continue
+            # exactly one of each
+            if not (len(news) == 1 and len(pushes) == 1 and len(maps) == 2 and len(bim) == 1):
+                problems.append("bookkeeping steps are not performed exactly once each (new %d, push %d, map writes %d, bimap inserts %d)" % (len(news), len(pushes), len(maps), len(bim)))
+                continue
+            c = news[0][1][2] if news[0][1][0] == "new" else None
+            if not (c is not None and c[0] == "ctor" and c[1] == "Pomerol::%sOperatorPart" % cls):
+                problems.append("part type is %s, expected %sOperatorPart" % (c[1] if c else "?", cls))
+            elif not (len(c) >= 6 and c[4] == ("mcall", "Pomerol::Hamiltonian::getPart", H, R) and c[5] == ("mcall", "Pomerol::Hamiltonian::getPart", H, Lkey)):
+                problems.append("part is not built with HFrom = H.getPart(Right), HTo = H.getPart(Left)")
+            if pushes[0][1] != news[0][1]:
+                problems.append("parts.push_back does not store the new part")
+            # position recorded in the maps == position of the pushed part
+            for pos_, which, keyk, rk_raw in maps:
+                want_key = R if which == "mapPartsFromRight" else Lkey
+                if keyk != want_key:
+                    problems.append("%s is keyed by %s instead of the %s block" % (which, fact_str(("true", keyk))[:40], "right" if which == "mapPartsFromRight" else "left"))
+                rk = deconv(rk_raw)
+                okpos = False
+                if rk[0] == "var" and rk[1] in counters:
+                    inc_here = [p_ for p_, d_ in incs if d_ == rk[1]]
+                    okpos = len(inc_here) == 1 and pos_ < inc_here[0]
+                elif rk[0] == "var" and ctx.decls.get(rk[1], {}).get("init") is not None and ctx.single_assignment(rk[1]):
+                    dn = ctx.decls[rk[1]].get("declnode")
+                    okpos = deconv(ctx.key(ctx.decls[rk[1]]["init"], inline=False)) == SIZE and dn in ids and ids.index(dn) < pushes[0][0]
+                elif rk == SIZE:
+                    okpos = pos_ < pushes[0][0]
+                elif rk == ("op", "-", SIZE, ("lit", 1)):
+                    okpos = pos_ > pushes[0][0]
+                else:
+                    raise AnalysisBroken("%s: the position stored in %s (%s) is not a recognised form of 'index of the part just appended'" % (g.qn, which, g.s(ids[pos_])[:60]))
+                if not okpos:
+                    problems.append("%s does not record the position of the part appended in this iteration (%s)" % (which, g.s(ids[pos_])[:50]))
+            bk = bim[0][1]
+            if not (len(bk) >= 4 and tuple(bk[-2:]) == (Lkey, R)):
+                problems.append("LeftRightBlocks does not get the pair (Left, Right)")
+            for d_ in counters:
+                if len([1 for p_, dd in incs if dd == d_]) != 1 and any(deconv(m_[3])[:2] == ("var", d_) for m_ in maps):
+                    problems.append("the running part counter is not incremented exactly once per new part")
+            sig = ("ok",)
+        elif isc("false") in pf:
+            n_without += 1
+            if effects:
+                problems.append("a part / map entry is created although mapsTo returned no image block (LeftIndex.isCorrect() is false on that path)")
+        else:
+            if effects:
                 problems.append("the part is created although mapsTo returned no image block (LeftIndex.isCorrect() not tested)")
-            # ... and by nothing else: every right block with an image block gets a part (a further filter silently drops
-            # matrix elements, e.g. the block-diagonal parts of c^+c)
-            pm = g.parent_map()
-            child, cur = j, pm.get(j)
-            while cur is not None and cur != shp["body"] and cur != loops[0]:
-                cn_ = g.nodes[cur]
-                if cn_["k"] == "if" and child != cn_.get("c"):
-                    ck_ = ab(ctx.key(cn_["c"], inline=False))
-                    in_then = child == cn_.get("then")
-                    if not (in_then and ck_ == ("mcall", "Pomerol::BlockNumber::isCorrect", Lr)):
-                        problems.append("part creation is filtered by a condition other than LeftIndex.isCorrect() (%s at %s): blocks with an image get no part" % (
-                            "then" if in_then else "else", g.loc(cur)))
-                elif cn_["k"] in ("while", "do", "for", "switch", "cond"):
-                    problems.append("part creation sits under a further %s statement" % cn_["k"])
-                child, cur = cur, pm.get(cur)
-    want = [("map", "Pomerol::FieldOperator::mapPartsFromRight", Rr, Sz), ("map", "Pomerol::FieldOperator::mapPartsFromLeft", Lr, Sz), ("bimap", Lr, Rr), ("size++",)]
-    for w in want:
-        if w not in items:
-            problems.append("missing or altered bookkeeping step %s" % (w,))
-    kinds = [it[0] for it in items]
-    if kinds.count("size++") != 1 or kinds.count("push") != 1 or kinds.count("map") != 2 or kinds.count("bimap") != 1:
-        problems.append("bookkeeping steps are not performed exactly once each (%s)" % kinds)
-    elif not (kinds.index("size++") > max(i for i, k in enumerate(kinds) if k == "map")):
-        problems.append("Size is incremented before it was recorded in the maps")
-    # independent bookkeeping statements may appear in any order: compare as a sorted multiset
-    return tuple(sorted(items, key=repr)), problems
+    if n_with == 0:
+        raise AnalysisBroken("%s: no path under LeftIndex.isCorrect() found" % g.qn)
+    return (sig if not problems else ("bad",)), sorted(set(problems))
 
 
 if __name__ == "__main__":
